@@ -5,6 +5,11 @@ ROOT = os.path.dirname(os.path.dirname(os.path.abspath(__file__)))
 ALL = ["C%02d" % i for i in range(1, 21)]
 # id -> (category, engine, technique, level text, level note, design ref)
 CHECKS = {
+ "C09": ("exploration", "E4-enum",
+         "bounded exhaustive enumeration: all subsets and all ordered pairs of a small scope universe against a bitmask set model",
+         "All 2^8 (quick) / 2^13 (thorough) subsets of a universe of resource scopes chosen one per branch of scope.go (known/unknown actions incl. one sorting between pull and push, catalog sentinel, empty repository name, opaque word, unknown type, registry:catalog:pull), built by every construction route (NewScope sorted/permuted/duplicated, ParseScope of plain, permuted, comma-joined text, Union results, zero value, unlimited) and all ordered pairs for Union/Contains/Equal; Iter order, early stop, Len, Holds for every universe element, print/parse round trip, receiver text preservation. Exhaustive over the universe.",
+         "Strings outside the universe are not explored; the model is a bitmask over the universe.",
+         "DESIGN.md 3 C09"),
  "C20": ("exploration", "E4-enum",
          "bounded exhaustive enumeration of set/unset assignments (all 2^18 in thorough) run against the real Funcs via reflection",
          "Every method x every set/unset assignment of the 18 function fields (thorough: all 262144; quick: none/all/singles/pairs and their complements) x with/without constructor, plus nil receiver; each call checked for no panic, exact delegation of arguments and results, constructor error or ErrUnsupported, single-item error iterators. The space is finite and enumerated completely in thorough.",
